@@ -65,7 +65,9 @@ pub fn replay(b: &serde_json::Value, nv: usize, gc_threshold: Option<usize>) -> 
     let var_of: HashMap<u64, u64> = ids.iter().map(|(v, id)| (*id, *v)).collect();
     let mut it = Interpreter::with_config(InterpreterConfig { internal_modules: vec![create_eval_internal_module()], ..Default::default() });
     if let Some(t) = gc_threshold { it.set_gc_threshold(t); }
-    let mut first = true;
+    // Orders.tla's initial state is the PREPARED program (vm active): answers given before prepare() belong to no run
+    // (prepare() discards them), so the host side of the history starts after prepare()
+    let mut prepared = Some(it.prepare(&src, Some(ModulePath::new("/p/main.ts"))));
     let mut proms: HashMap<u64, RuntimeValue> = HashMap::new();
     let hist = b["hist"].as_array().cloned().unwrap_or_default();
     let mut k = 0usize;
@@ -74,7 +76,7 @@ pub fn replay(b: &serde_json::Value, nv: usize, gc_threshold: Option<usize>) -> 
         let act = &hist[k];
         match act["a"].as_str().unwrap_or("") {
             "step" => {
-                let o = if first { first = false; let r = it.prepare(&src, Some(ModulePath::new("/p/main.ts"))); run_to_terminal(&mut it, Some(r)) } else { run_to_terminal(&mut it, None) };
+                let o = match prepared.take() { Some(r) => run_to_terminal(&mut it, Some(r)), None => run_to_terminal(&mut it, None) };
                 let ep: Vec<u64> = act["pending"].as_array().map(|a| a.iter().filter_map(|x| x.as_u64()).collect()).unwrap_or_default();
                 let ec: Vec<u64> = act["cancelled"].as_array().map(|a| a.iter().filter_map(|x| x.as_u64()).collect()).unwrap_or_default();
                 let gp: Vec<u64> = o.pend.iter().map(|p| p.0).collect();
